@@ -487,7 +487,8 @@ def rule_id_helper(ctx):
     # conversion: Int(n) -> n.to_string(), Str(s) -> s
     conv = [fn for fn in c.all_fns() if 'From<' + ename in (fn.d.get('impl_trait') or '') or ('std::convert::From<%s>' % ename) in norm_path(fn.path)]
     # any function of the crate taking exactly the helper enum and returning String (a From impl, an inherent method, a free fn)
-    conv = [fn for fn in c.all_fns() if not fn.from_macro and [x.replace('&', '').strip() for x in fn.d.get('inputs', [])] == [ename]
+    conv = [fn for fn in c.all_fns() if not fn.from_macro and len(fn.d.get('inputs', [])) == 1 and
+            (fn.d['inputs'][0].replace('&', '').strip() == ename or fn.d['inputs'][0].replace('&', '').strip().endswith('::' + helper_enum['name']))
             and fn.d.get('output', '').replace('std::string::String', 'String').replace('alloc::string::String', 'String') == 'String']
     conv_paths = {norm_path(fn.path) for fn in conv}
     if not conv:
@@ -934,16 +935,31 @@ def rule_depr_default(ctx):
     fs = [fn for fn in cg.all_fns() if fn.path.endswith('from_str') and 'DeprecationStrategy' in fn.path]
     if fs:
         table = {}
+
+        def _variants(e_):
+            glob = [n['res'].get('path', '') for n in walk(e_) if n['k'] == 'path' and n['res'].get('r') in ('def', 'ctor')]
+            return [g.split('::')[-1] for g in glob if 'DeprecationStrategy::' in g]
         for m in walk(fs[0].body):
             if m['k'] == 'match':
                 for a in m['arms']:
                     ps = P.pat_summary(a['pat'])
                     if ps[0] == 'lit':
-                        glob = [n['res'].get('path', '') for n in walk(a['body']) if n['k'] == 'path' and n['res'].get('r') == 'def']
-                        table[ps[1]] = [g.split('::')[-1] for g in glob if 'DeprecationStrategy::' in g]
+                        table[ps[1]] = _variants(a['body'])
+            elif m['k'] == 'if' and isinstance(m.get('cond'), dict):
+                cnd = m['cond']
+                while isinstance(cnd, dict) and cnd.get('k') in ('wrap', 'paren', 'droptemps', 'use') and isinstance(cnd.get('e'), dict):
+                    cnd = cnd['e']
+                if not (cnd.get('k') == 'binary' and cnd.get('op') in ('==', 'Eq', 'eq')):
+                    continue
+                # `if keyword == "allow" { Ok(Self::Allow) } else if ..`
+                lits = [x['lit']['v'] for side in ('l', 'r') for x in walk(cnd.get(side) or {}) if x.get('k') == 'lit' and (x.get('lit') or {}).get('lk') == 'str']
+                if len(lits) == 1:
+                    table[lits[0]] = _variants(m.get('then'))
         want = {'allow': ['Allow'], 'deny': ['Deny'], 'warn': ['Warn']}
         if table == want:
             obs.append(ok('DEPR-DEFAULT', 'from_str', 'allow/deny/warn parse to their strategies', fs[0].loc))
+        elif not table:
+            obs.append(undecided('DEPR-DEFAULT', 'from_str', 'the name table of FromStr for DeprecationStrategy is not a match / if chain on string literals', fs[0].loc))
         else:
             obs.append(bad('DEPR-DEFAULT', 'from_str', 'strategy names parse as %s' % table, fs[0].loc, 'a documented name selects another strategy'))
     else:
